@@ -135,7 +135,7 @@ def gen_volume_spec(ctx, r, idx):
         channels.append({'desc': d, 'values': vals})
     return {
         'idx': idx, 'shape': shape, 'lin': lin, 'pos': pos, 'oblique': oblique, 'channels': channels,
-        'dtype': r.choice(['int64', 'int64', 'int32', 'float64']),
+        'dtype': r.choice(['int64', 'int64', 'int32', 'float64', 'int64big']),
         'coord': 'PATIENT' if r.random() < 0.88 else 'SLIDE',
         'for_uid': r.choice([None, '1.2.826.0.1.3680043.8.498.1']),
     }
@@ -392,6 +392,8 @@ def build(spec):
     arr = (np.arange(1, total + 1, dtype=np.int64).reshape(shape + cshape))
     if spec['dtype'] == 'float64':
         arr = arr.astype(np.float64) * 0.5
+    elif spec['dtype'] == 'int64big':
+        arr = arr + (2 ** 53 + 1)          # not representable in float64: a silent conversion alters them
     else:
         arr = arr.astype(spec['dtype'])
     aff = np.eye(4)
@@ -627,8 +629,8 @@ def oracle_step(ctx, case, vin, vout, op, exact, site):
         src = q[inr].astype(int)
         got = vout.array[jout[inr, 0], jout[inr, 1], jout[inr, 2]]
         want = vin.array[src[:, 0], src[:, 1], src[:, 2]]
-        if not np.array_equal(got.astype(np.float64), want.astype(np.float64)):
-            bad = np.argwhere(np.any((got != want).reshape(len(got), -1), axis=1)).ravel()[:3]
+        if not (np.array_equal(got.astype(want.dtype), want) and np.array_equal(got, want.astype(got.dtype))):
+            bad = np.argwhere(np.any((got.astype(want.dtype) != want).reshape(len(got), -1), axis=1)).ravel()[:3]
             fail('a retained voxel does not hold the value it had at this physical position',
                  examples=[{'out_index': jout[inr][b].tolist(), 'in_index': src[b].tolist(),
                             'got': np.asarray(got[b]).tolist(), 'want': np.asarray(want[b]).tolist()} for b in bad])
@@ -648,7 +650,10 @@ def oracle_step(ctx, case, vin, vout, op, exact, site):
         else:
             want = _pad_value_expected(vout, op, jout, inr, new, vin.array.dtype)
             got = vout.array[jout[new, 0], jout[new, 1], jout[new, 2]]
-            same = np.array_equal(got, want) if got.dtype.kind != 'f' else \
+            # float statistics of integers beyond 2**52 are rounded inside numpy (order of summation): tolerance there
+            rounded = got.dtype.kind == 'f' or (op['mode'].upper() in ('MEAN', 'MEDIAN') and
+                                                float(np.abs(vin.array).max()) > 2.0 ** 52)
+            same = np.array_equal(got, want) if not rounded else \
                 np.allclose(got.astype(np.float64), np.asarray(want, dtype=np.float64), rtol=2.0 ** -40, atol=0)
             if not same:
                 fail('new voxels do not hold the padding value of the mode', mode=op['mode'],
@@ -902,8 +907,9 @@ def run_history(ctx, spec, length, r, reqs, pending):
             # whole-history unique-value check
             if op['op'] in PAD_OPS:
                 m = op['mode'].upper()
-                if m != 'CONSTANT' or op['cval'] > 0:
-                    if tuple(v2.spatial_shape) != tuple(v.spatial_shape):
+                if tuple(v2.spatial_shape) != tuple(v.spatial_shape):
+                    # new voxels appear: their value must not be one of the (unique) values tracked from `base`
+                    if m != 'CONSTANT' or bool(np.isin(np.array(op['cval']).astype(base.array.dtype), base.array)):
                         base_ok = False
             if op['op'] == 'with_array' or op['op'] in ('get_channel', 'permute_channels', 'permute_channels_by_id'):
                 base, base_ok = v2, True
@@ -937,7 +943,7 @@ def run_history(ctx, spec, length, r, reqs, pending):
                              'coord': spec['coord'], 'chan_ids': [DESC_IDS[c['desc']] for c in spec['channels']],
                              'ops': model_ops}))
     pending.append({'spec_idx': spec['idx'], 'exact': exact, 'obs': impl_obs,
-                    'chan_values': {name: vals for name, vals in o0['channels']}})
+                    'chan_values': {name: vals for name, vals in o0['channels']}, 'big': spec['dtype'] == 'int64big'})
 
 
 def _history_check(ctx, case, base, v, exact, site):
@@ -1004,8 +1010,8 @@ def compare_history(ctx, pend, ans):
             return
         io, mo = obs['ok'], m['ok']
         if op.get('mode', '').upper() == 'MEAN' or op.get('mode', '').upper() == 'MEDIAN':
-            if not io['isint']:
-                exact_vals = False
+            if not io['isint'] or pend.get('big'):
+                exact_vals = False     # numpy's float mean / median of these values is rounded (DESIGN 10)
         if io['shape'] != mo['shape']:
             ctx.disagree('L0', case, io['shape'], mo['shape'], 'shape')
             return
@@ -1198,7 +1204,7 @@ def run(ctx):
     for entry in _corpus(ctx):
         run_fixed(ctx, entry, reqs, pending)
     orientation_grid(ctx)
-    n = ctx.n(260, 4000)
+    n = ctx.n(1200, 12000)
     _run_cases(ctx, range(n), reqs, pending)
     answers = ctx.model(reqs)
     if answers is None:
